@@ -117,12 +117,16 @@ def run(argv, env=None, stdin=None, timeout=WATCHDOG, rlimits=None, ignore_sigxf
 
     t0 = time.time()
     try:
+        if text and isinstance(stdin, str):
+            stdin = stdin.encode("utf-8")
         p = subprocess.run(argv, env=e, input=stdin, stdout=subprocess.PIPE, stderr=subprocess.PIPE, timeout=timeout,
-                           preexec_fn=pre if (rlimits or ignore_sigxfsz) else None, cwd=cwd,
-                           text=text, errors="replace" if text else None)
-        return Proc(p.returncode, p.stdout, p.stderr, False, time.time() - t0)
+                           preexec_fn=pre if (rlimits or ignore_sigxfsz) else None, cwd=cwd)
+        # decode by hand: text mode would translate "\r" (possible inside OP_RETURN payloads) into "\n"
+        dec = (lambda b: b.decode("utf-8", errors="replace")) if text else (lambda b: b)
+        return Proc(p.returncode, dec(p.stdout), dec(p.stderr), False, time.time() - t0)
     except subprocess.TimeoutExpired as ex:
-        return Proc(None, ex.stdout or "", ex.stderr or "", True, time.time() - t0)
+        dec = (lambda b: (b or b"").decode("utf-8", errors="replace")) if text else (lambda b: b or b"")
+        return Proc(None, dec(ex.stdout), dec(ex.stderr), True, time.time() - t0)
 
 
 def eval_scripts(binary, items, chunk=20000, jobs=None):
